@@ -25,7 +25,7 @@ Init == /\ l = 1
         /\ loopEnded = FALSE /\ stopRet = FALSE /\ destroyed = FALSE /\ nacc = 0 /\ nserved = 0
 
 Modeled == {0, 30, 31, 32, 33, 34, 35, 201, 202, 204, 205, 206, 207}
-Bad(fd) == fd < 0             \* accept() failed: the library still runs serve() on the invalid socket; not a connection
+Bad(fd) == fd < 0             \* not a descriptor: serve() must never be called on an invalid socket
 Live == sAcc \cup sCall \cup sServ \cup sBody
 
 Step ==
@@ -37,19 +37,16 @@ Step ==
      \/ /\ e.k \notin Modeled
         /\ UNCHANGED <<sAcc, sCall, sServ, sBody, tCall, tClose, tokens, loopEnded, stopRet, destroyed, nacc, nserved>>
      \* Accept(c): a new connection; its descriptor is not owned by a live connection; the loop is still running
-     \/ /\ e.k = 30 /\ ~loopEnded /\ ~destroyed
-        /\ IF Bad(e.v) THEN UNCHANGED <<sAcc, nacc>>
-           ELSE e.v \notin Live /\ sAcc' = sAcc \cup {e.v} /\ nacc' = nacc + 1
+     \/ /\ e.k = 30 /\ ~loopEnded /\ ~destroyed /\ ~Bad(e.v)       \* (a failed accept() is not announced: nothing to serve)
+        /\ e.v \notin Live /\ sAcc' = sAcc \cup {e.v} /\ nacc' = nacc + 1
         /\ UNCHANGED <<sCall, sServ, sBody, tCall, tClose, tokens, loopEnded, stopRet, destroyed, nserved>>
      \* HServe(c) / inline serve: exactly once per accepted connection, never after stop(true) returned or destruction
-     \/ /\ e.k = 31 /\ ~stopRet /\ ~destroyed /\ e.t \notin (tCall \cup tClose)
-        /\ IF Bad(e.v) THEN UNCHANGED <<sAcc, sCall>>
-           ELSE e.v \in sAcc /\ sAcc' = sAcc \ {e.v} /\ sCall' = sCall \cup {e.v}
+     \/ /\ e.k = 31 /\ ~stopRet /\ ~destroyed /\ e.t \notin (tCall \cup tClose) /\ ~Bad(e.v)
+        /\ e.v \in sAcc /\ sAcc' = sAcc \ {e.v} /\ sCall' = sCall \cup {e.v}
         /\ tCall' = tCall \cup {e.t}
         /\ UNCHANGED <<sServ, sBody, tClose, tokens, loopEnded, stopRet, destroyed, nacc, nserved>>
-     \/ /\ e.k = 201 /\ e.t \in tCall
-        /\ IF Bad(e.o) THEN UNCHANGED <<sCall, sServ, nserved>>
-           ELSE e.o \in sCall /\ sCall' = sCall \ {e.o} /\ sServ' = sServ \cup {e.o} /\ nserved' = nserved + 1
+     \/ /\ e.k = 201 /\ e.t \in tCall /\ ~Bad(e.o)                  \* serve() runs on a valid socket
+        /\ e.o \in sCall /\ sCall' = sCall \ {e.o} /\ sServ' = sServ \cup {e.o} /\ nserved' = nserved + 1
         /\ UNCHANGED <<sAcc, sBody, tCall, tClose, tokens, loopEnded, stopRet, destroyed, nacc>>
      \* end of the serve() body; a client's token is served at most once
      \/ /\ e.k = 202 /\ e.t \in tCall /\ (e.v >= 0 => e.v \notin tokens)
